@@ -57,6 +57,11 @@ pub fn total_for(kind: WKind, pcm: &Pcm) -> u64 {
     }
 }
 
+thread_local! {
+    /// when set, `encode` calls `io::Write::flush` on a byte writer after every other write call
+    pub static FLUSH_BETWEEN: std::cell::Cell<bool> = const { std::cell::Cell::new(false) };
+}
+
 /// io::Write::write_all semantics, but a caller-visible retry loop so that byte writers are
 /// driven through `write` as well as `write_all`
 fn write_loop<W: Write>(w: &mut W, mut b: &[u8], use_write_all: bool) -> std::io::Result<()> {
@@ -142,6 +147,12 @@ pub fn encode<S: Write + Seek>(
                         wtry!(w, write_loop(&mut *w, &all[pos..e], i % 2 == 0), eio);
                         pos = e;
                         i += 1;
+                        // io::Write::flush between calls: it may push bytes to the sink, it must not
+                        // change what the stream is
+                        if FLUSH_BETWEEN.with(|f| f.get()) && i % 2 == 1 {
+                            crate::monitor::probe("byte_writer_flushed_between_writes");
+                            wtry!(w, Write::flush(&mut *w), eio);
+                        }
                     }
                     if pos < all.len() {
                         wtry!(w, write_loop(&mut *w, &all[pos..], true), eio);
